@@ -50,8 +50,48 @@ pub fn explore(prop: &str, tier: Tier) -> Option<J> {
     }
 }
 
-pub fn replay_history(_args: &[String]) -> i32 {
-    2
+/// `hist <PROP> <decode:hexline>...` — replay one recorded history on a fresh parser, printing for
+/// every step the monitor's expectation, the real outcome and the findings; exit 1 if a finding
+/// contradicts PROP.
+pub fn replay_history(args: &[String]) -> i32 {
+    use crate::explore::{judge_step, Findings};
+    use crate::spec::asm::{self, MState};
+    let prop = args[0].as_str();
+    let mut p = crate::subj::Parser::new();
+    let mut m = MState::Closed;
+    let mut bad = 0;
+    let mut f: Findings = Vec::new();
+    for (i, a) in args[1..].iter().enumerate() {
+        let (d, h) = match a.split_once(':') {
+            Some(x) => x,
+            None => return 2,
+        };
+        let decode = d == "1";
+        let line = crate::json::unhex(h);
+        let d0 = p.state();
+        let (exp, m1) = asm::step(&m, &line, decode, crate::subj::NOALLOC);
+        let out = p.parse(&line, decode);
+        let d1 = p.state();
+        println!("step {} line {:?} decode={}", i, crate::json::esc_bytes(&line), decode);
+        println!("   expectation {:?}", exp);
+        println!("   outcome     {}", out.show());
+        println!("   parser      {}", d1);
+        f.clear();
+        judge_step(&exp, &line, decode, &out, &d0, &d1, &mut f);
+        for (props, sig, why) in f.drain(..) {
+            println!("   FINDING {} (contradicts {:?}): {}", sig, props, why);
+            if props.contains(&prop) {
+                bad += 1;
+            }
+        }
+        m = m1;
+    }
+    println!("build={} findings_for_{}={}", crate::subj::BUILD, prop, bad);
+    if bad > 0 {
+        1
+    } else {
+        0
+    }
 }
 
 /// C01 — totality: every space family, all three builds; only panics / hangs are reported.
